@@ -182,7 +182,7 @@ const char *tr_find_char(const char *s, size_t n, char c) {
     __CPROVER_assert(n == 0 || __CPROVER_r_ok(s, n), "tr_find.precondition: range readable for n elements");
     size_t k = nondet_size_t();
     TRF_S = s; TRF_N = n; TRF_C = c; TRF_CALLS++;
-    if (n <= 8) {       /* small tables (e.g. the list of valid float conversions): the exact answer, position by position */
+    if (n <= 8 && !(TRIM_CHARSET != (const char *)0 && s == TRIM_CHARSET)) {       /* small tables (e.g. the list of valid float conversions): the exact answer, position by position; a registered character set is answered through IN_SET below, whatever its length */
         size_t f = n;
         if (n > 7 && s[7] == c) f = 7; if (n > 6 && s[6] == c) f = 6; if (n > 5 && s[5] == c) f = 5; if (n > 4 && s[4] == c) f = 4;
         if (n > 3 && s[3] == c) f = 3; if (n > 2 && s[2] == c) f = 2; if (n > 1 && s[1] == c) f = 1; if (n > 0 && s[0] == c) f = 0;
